@@ -86,7 +86,14 @@ def gen_case(rng, tier):
         name = rng.choice(OPS)
         lay = rng.choice([None, None, None, "F", "T", "strided"])
         if name == "set_weights":
-            ops.append({"op": name, "v": L(gen_simplex(rng, c)), "lay": lay})
+            w = gen_simplex(rng, c)
+            if c >= 2 and rng.random() < 0.2:
+                # pruned components: some weights are exactly zero (one-hot in the extreme)
+                w = np.array(w)
+                for j in rng.sample(range(c), rng.randint(1, c - 1)):
+                    w[j] = 0.0
+                w = w / w.sum()
+            ops.append({"op": name, "v": L(w), "lay": lay})
         elif name == "set_means":
             ops.append({"op": name, "v": L(sig6(rs.randn(c, d) * 2 * scale)), "lay": lay})
         elif name == "set_variances":
@@ -286,6 +293,7 @@ def run_case(case, replay=None):
                 with np.errstate(all="ignore"):
                     if name == "set_weights":
                         m.weights = _lay(o, A(o["v"]))
+                        rec.probe("weights_with_exact_zeros", bool((A(o["v"]) == 0).any()))
                     elif name == "set_means":
                         m.means = _lay(o, cut(A(o["v"])))
                     elif name == "set_variances":
